@@ -63,6 +63,16 @@ def render_request(c, rnd):
         return b64({"action": "compile", "code": {"": GOOD_SRC}, "options": {"nonsense": True}})
     if c == "blank":
         return rnd.choice(["", "   ", "\t"])
+    if c == "crlf":
+        return render_request("valid", rnd) + "\r"
+    if c == "padded":
+        return rnd.choice(["  ", "\t"]) + render_request("valid", rnd) + rnd.choice([" ", "  \t"])
+    if c == "huge":
+        return b64({"action": "compile", "code": {"": "# " + "x" * rnd.choice([300000, 1200000]) + "\n" + GOOD_SRC}})
+    if c == "rawbytes":
+        return rnd.choice([b"\xff\xfe\xfd", b"\xc3\x28 abc", b"\x80" * 40])
+    if c == "nul":
+        return b"\x00" + rnd.choice([b"", b"abc\x00"])
     raise MachineryError("unknown request class " + c)
 
 
@@ -92,12 +102,13 @@ def run_daemon(conv, rnd_seed):
             break
         else:
             lines.append(render_request(c, rnd))
-    data = ("\n".join(lines) + "\n") if lines else ""
+    raw = [l if isinstance(l, bytes) else l.encode("utf-8") for l in lines]
+    data = (b"\n".join(raw) + b"\n") if raw else b""
     env = dict(os.environ)
     env["PYTHONPATH"] = os.path.join(REPO, "src")
     env.pop("PYTRAPIC_VERIF", None)
     try:
-        p = subprocess.run([PY, "-m", "stationeers_pytrapic.mod_daemon"], input=data.encode("utf-8"), stdout=subprocess.PIPE,
+        p = subprocess.run([PY, "-m", "stationeers_pytrapic.mod_daemon"], input=data, stdout=subprocess.PIPE,
                            stderr=subprocess.PIPE, env=env, timeout=120, cwd="/")
         exited = p.returncode == 0
         stdout = p.stdout.decode("utf-8", "replace")
@@ -109,7 +120,7 @@ def run_daemon(conv, rnd_seed):
         outl = outl[:-1]
     kinds = [classify_reply(l) for l in outl]
     return {"sent": sent, "out": [k for k in kinds if k != "garbage"], "extra": any(k == "garbage" for k in kinds),
-            "exited": exited, "stdin": lines, "stdout": outl}
+            "exited": exited, "stdin": [l if isinstance(l, str) and len(l) < 400 else repr(l)[:400] for l in lines], "stdout": [o[:400] for o in outl]}
 
 
 def check_c14(tier, t0):
